@@ -14,6 +14,8 @@ CONSTANTS
   ClockAnomalies = FALSE
   CacheLoss = FALSE
   LiveRounds = FALSE
+  CachePutFails = TRUE
+  CrashInCreate = TRUE
   Stops = TRUE
 INVARIANTS PoolBound StoppedIsQuiet AckPublished AckInLock LeafCount LockAppendOnly
 PROPERTIES OutcomeIsFinal LockStepExtends
